@@ -122,6 +122,9 @@ def _build(events, partial):
                 j0 += 1
         elif k0 == "lookup_out":
             raise TraceError("event %d: lookup_out without lookup_in" % j0)
+        elif k0 == "selected_all":
+            reads.append((j0, "(BSelectedAll %s %s %s)" % (_l([str(c) for c in d0["within"]]), _l([str(c) for c in d0["except"]]), _l([str(c) for c in d0["out"]]))))
+            j0 += 1
         elif k0 == "lookup_all":
             reads.append((j0, "(BLookupAll %%s %d %s)" % (d0["node"], _l([str(c) for c in d0["cids"]]))))
             j0 += 1
@@ -306,7 +309,7 @@ def _build(events, partial):
         extra = []
         while ri < len(reads) and reads[ri][0] < hi:
             p_, t_ = reads[ri]
-            extra.append(t_ % ("true" if inst is not None and p_ > inst else "false"))
+            extra.append(t_ % ("true" if inst is not None and p_ > inst else "false") if "%s" in t_ else t_)
             ri += 1
         out.append("(%s, %s)" % (op, _l(extra + obs)))
     if ri < len(reads) and not partial:
@@ -424,5 +427,5 @@ def perturbations(events, rng):
     return out
 
 
-COQ_HEADER = ("From Coq Require Import List NArith Bool.\nFrom PV Require Import Lib.ListX Model.Rq Model.RqWf Model.Lowerer Model.RqEq Model.LowererTrace Model.LowererVis Model.LowererSelect.\n"
+COQ_HEADER = ("From Coq Require Import List NArith Bool.\nFrom PV Require Import Lib.ListX Model.Rq Model.RqWf Model.Lowerer Model.RqEq Model.LowererTrace Model.LowererVis Model.LowererSelect Model.LowererEntries.\n"
               "Import ListNotations.\nLocal Open Scope N_scope.\n")
